@@ -119,13 +119,22 @@ func c28Exec(hist []c28Op, outcome func(string)) (string, bool, []lib.Problem) {
 			bad(step, clause, "evicting everything returns ways %v, model recency list (least recent first) is %v", got, m.recency)
 		}
 	}
+	reserialized := false
 	clone := func(step int, t *lruset.Set) *lruset.Set {
 		data, err := json.Marshal(t)
 		if err != nil {
 			bad(step, "json-marshal", "%v", err)
 			return nil
 		}
+		// exploration aid, not an oracle: when the copy does not serialize to the
+		// same text the implementation's hidden state has changed, so the state
+		// reached must not be merged with the one before the round trip
 		n := new(lruset.Set)
+		defer func() {
+			if again, err := json.Marshal(n); err == nil && string(again) != string(data) {
+				reserialized = true
+			}
+		}()
 		if step%2 == 1 {
 			// every other time: decode into a set that has been used (other
 			// size, keys bound, recency changed) instead of a fresh one
@@ -243,7 +252,11 @@ func c28Exec(hist []c28Op, outcome func(string)) (string, bool, []lib.Problem) {
 	if len(probs) > 0 {
 		return "", true, probs
 	}
-	return m.key(ways), false, nil
+	k := m.key(ways)
+	if reserialized {
+		k += " json-text-changed-by-a-round-trip"
+	}
+	return k, false, nil
 }
 
 func init() {
